@@ -635,8 +635,16 @@ def pconj_check(rec):
 # ------------------------------------------------------------------ MatrixProductOperator
 @st.composite
 def matprod_recipes(draw, tier):
-    how = draw(st.sampled_from(["dense_1d", "dense_nd_none", "spaces", "spaces", "spaces_int", "flatten",
-                                "sparse_1d", "sparse_flatten", "sparse_flatten"]))
+    hows = ["dense_1d", "dense_nd_none", "spaces", "spaces", "spaces_int", "flatten",
+            "sparse_1d", "sparse_flatten", "sparse_flatten"]
+    # recorded findings (known_findings.json) are excluded by construction while they are recorded
+    if "mpo_sparse" in C.KNOWN:
+        hows = [h for h in hows if not h.startswith("sparse")]
+    if "mpo_int_spaces" in C.KNOWN:
+        hows = [h for h in hows if h != "spaces_int"]
+    if "mpo_multiaxis_none" in C.KNOWN:
+        hows = [h for h in hows if h != "dense_nd_none"]
+    how = draw(st.sampled_from(hows))
     cplx = draw(st.booleans())
     if how in ("dense_1d", "sparse_1d"):
         rs = [draw(C.space(max_size=6, kinds=("RG", "U", "DOF", "LM", "GL")))]
